@@ -54,6 +54,12 @@ def other(name):
         c.emplace_gate('B@n', G.GT, ('B@a', 'C@a'))
         c.emplace_gate('n', G.NOT, ('B@n',))
         c.set_outputs(['n', 'B@n'])
+    elif name == 'O10':  # gates that read the same operand twice (also among three)
+        c.add_inputs(['a', 'b'])
+        c.emplace_gate('w', G.NAND, ('a', 'a'))
+        c.emplace_gate('z', G.AND, ('w', 'b', 'w'))
+        c.emplace_gate('y', G.LT, ('z', 'z'))
+        c.set_outputs(['y', 'w'])
     elif name == 'O4':  # with an internal block and a dead gate
         c.add_inputs(['a', 'b'])
         c.emplace_gate('q', G.GT, ('a', 'b'))
@@ -377,7 +383,7 @@ def composition_menu(c, level='full', others=('O1', 'O2', 'O3')):
         on = other_net(o)
         oin = on.inputs
         ogates = list(on.gates)
-        heavy = o == 'O4'  # block-carrying attached circuit: one naming option, left-connections complete or empty
+        heavy = o in ('O4', 'O10')  # larger attached circuits: one naming option, left-connections complete or empty
         for name, pref in (namings[1:2] if heavy and len(namings) > 1 else namings):
             # left: every duplicate-free tuple of other's inputs (incl. partial) x every tuple of base gates
             for r in ((0, len(oin)) if heavy else range(0, len(oin) + 1)):
